@@ -12,10 +12,14 @@ from .. import meshlib, simlib, refs, seams
 
 
 class MeshRec:
-    def __init__(self, raw):
+    def __init__(self, raw, orphans=0):
         self.raw = raw
         self.coord = raw.coord.copy()
-        self.live = meshlib.build(raw)
+        if orphans:
+            # nodes that no element uses (left over by a mesh generator): every mesh of a run may have its own number
+            z = float(raw.coord[:, 2].max())
+            self.coord = np.vstack([self.coord, [[10.0 + i, 10.0, z] for i in range(orphans)]])
+        self.live = meshlib.build(raw, coord=self.coord)
         self.dim = 3 if raw.main[0][0].startswith(("HEXA", "TETRA", "PRISM")) else 2
 
 
@@ -91,7 +95,11 @@ class FreshWorld(World):
                 mo = len(models) - 1
             sims.append({"type": st, "mesh": mi, "model": mo})
         nops = int(rng.integers(8, 26 if tier == "quick" else 41))
-        return {"dim": dim, "meshes": meshes, "models": models, "sims": sims, "nops": nops, "faults": bool(faults)}
+        cfg = {"dim": dim, "meshes": meshes, "models": models, "sims": sims, "nops": nops, "faults": bool(faults)}
+        if not heavy and rng.random() < 0.25:
+            # nodes attached to no element, a different number per mesh (what is known about them must follow the mesh)
+            cfg["orphans"] = [int(rng.integers(0, 4)) for _ in meshes]
+        return cfg
 
     # ------------------------------------------------------------------ build
     def __init__(self, cfg, ctx):
@@ -123,7 +131,10 @@ class FreshWorld(World):
         lib = meshlib.library()
         self.dim = cfg["dim"]
         with ctx.sut():
-            self.meshes = [MeshRec(lib[n]) for n in cfg["meshes"]]
+            orph = cfg.get("orphans") or [0] * len(cfg["meshes"])
+            self.meshes = [MeshRec(lib[n], orph[i]) for i, n in enumerate(cfg["meshes"])]
+            if any(orph):
+                ctx.probe("mesh_with_orphan_nodes")
             self.models = [ModelRec(m["kind"], m["params"], self.meshes[m.get("mesh", 0)].live) for m in cfg["models"]]
             self.sims = []
             for s in cfg["sims"]:
@@ -228,6 +239,13 @@ class FreshWorld(World):
                            {"op": "read", "s": s}, {"op": "coord"}, {"op": "read", "s": s}]
             self._queue[4]["s"] = s
             return {"op": "save_iter", "s": s}
+        orph = self.cfg.get("orphans")
+        if orph and rec.solved and len(self.meshes) > 1 and rec.type != "WeakForms" and rng.random() < 0.2:
+            other = [j for j in range(len(self.meshes)) if j != rec.mesh_i and orph[j] != orph[rec.mesh_i]]
+            if other:
+                # solved on a mesh with k unused nodes: replace it by one with another number of them and solve again
+                self._queue = [{"op": "gen", "name": "dirichlet", "s": s}, {"op": "gen", "name": "solve", "s": s}]
+                return {"op": "setmesh", "s": s, "mesh": other[int(rng.integers(len(other)))]}
         if rec.solved and self._well_posed(rec) and rng.random() < 0.04:
             # a discarded attempt: save, change the loading, solve, go back to the saved iteration, read / solve again
             self._queue = [{"op": "gen", "name": "dirichlet", "s": s}, {"op": "gen", "name": "solve", "s": s}, {"op": "set_iter_last", "s": s},
